@@ -41,3 +41,11 @@ Proof.
   - repeat constructor.
   - repeat constructor; cbv; discriminate.
 Qed.
+
+(* nothing the map can produce is lost by the reduction to supported inputs:
+   every output value of the map is still written for some supported request *)
+Theorem C12_outputs_reachable : forall pm v,
+  StronglySorted Z.lt (map fst pm) -> Forall (fun kv => snd kv <> -1) pm ->
+  In v (map snd pm) -> exists k, In k (supported pm) /\ written pm k = FcVal v.
+Proof. exact supported_covers_outputs. Qed.
+Print Assumptions C12_outputs_reachable.
